@@ -13,9 +13,6 @@ new buffer), `C:<hex>` (Class field assigned directly).  `dec`: `frame:<consumed
 namespace MosnVerif.Drive.C01
 open MosnVerif.Drive MosnVerif.Model MosnVerif.Model.Bytes MosnVerif.Model.Bolt
 
-inductive Op where
-  | set (k v : Bytes) | del (k : Bytes) | body (d : Bytes) | cls (c : Bytes)
-
 def parseOp (s : String) : Option Op :=
   match s.splitOn ":" with
   | ["S", k, v] => do some (.set (← unhex k) (← unhex v))
@@ -26,14 +23,6 @@ def parseOp (s : String) : Option Op :=
 
 def parseOps (s : String) : Option (List Op) :=
   if s == "-" then some [] else (s.splitOn ";").mapM parseOp
-
-def applyOp (f : Frame) : Op → Frame
-  | .set k v => setHeader f k v
-  | .del k => delHeader f k
-  | .body d => setData f d
-  | .cls c => { f with cls := c }
-
-def modify (ops : List Op) (f : Frame) : Frame := ops.foldl applyOp f
 
 /-- what the model does with one case: (dec, enc, out) -/
 def modelBolt (codec : Codec) (id : Nat) (ops : List Op) (inp : Bytes) : String × String × Bytes :=
